@@ -340,6 +340,28 @@ def large_networks():
     n = 40
     caps = [3 + (i * 7) % 5 for i in range(n - 1)]
     out.append(("chain_40", n, [(i, i + 1, caps[i]) for i in range(n - 1)] + [(i + 1, i, 9) for i in range(n - 1)], 0, n - 1, min(caps)))
+    # rerouting chains: the arc v->u is filled by the shortest path s-v-u-t, emptied by s-a-u-(back over v->u)-v-..-t and needed
+    # forward again by the longest path s-a-..-v-u-..-t; detours of lb / lc / le inner nodes; the source arcs carry 3 units
+    for lb in (1, 2, 3):
+        for lc in (1, 2, 3):
+            for le in (1, 2, 3, 4):
+                nxt = [4]
+
+                def chain(a, b, k, arcs):
+                    prev = a
+                    for _ in range(k):
+                        arcs.append((prev, nxt[0], 1))
+                        prev = nxt[0]
+                        nxt[0] += 1
+                    return prev
+
+                arcs = [(0, 1, 1), (1, 2, 1), (0, 3, 2), (3, 2, 1)]
+                ends = [chain(1, None, lb, arcs), chain(2, None, le, arcs)]
+                last_c = chain(3, None, lc, arcs)
+                arcs.append((last_c, 1, 1))
+                t = nxt[0]
+                arcs += [(2, t, 1), (ends[0], t, 1), (ends[1], t, 1)]
+                out.append((f"reroute_chains_{lb}_{lc}_{le}", t + 1, arcs, 0, t, 3))
     for m in (6, 12):
         arcs = [(0, 1 + i, 1) for i in range(m)] + [(1 + i, 1 + m + j, 1) for i in range(m) for j in range(m)] + [(1 + m + j, 2 * m + 1, 1) for j in range(m)]
         out.append((f"complete_bipartite_{m}x{m}_unit", 2 * m + 2, arcs, 0, 2 * m + 1, m))
